@@ -455,18 +455,20 @@ def _write_external_data(
         os.path.realpath(requested_path) if os.path.islink(requested_path) else requested_path
     )
     destination_dir = os.path.dirname(destination_path) or "."
-    temporary_dir = tempfile.mkdtemp(
-        dir=destination_dir,
-        prefix=f".{os.path.basename(destination_path)}.",
-    )
-    temporary_path = os.path.join(temporary_dir, os.path.basename(destination_path))
-
+    # Find the tensors backed by the destination before the temporary directory
+    # exists, so that a failure here (e.g. an invalid location) leaves nothing behind
     overwritten_tensors = [
         tensor
         for tensor in tensors
         if isinstance(tensor, _core.ExternalTensor)
         and _paths_refer_to_same_file(tensor.path, destination_path)
     ]
+    temporary_dir = tempfile.mkdtemp(
+        dir=destination_dir,
+        prefix=f".{os.path.basename(destination_path)}.",
+    )
+    temporary_path = os.path.join(temporary_dir, os.path.basename(destination_path))
+
     try:
         writer = _ExternalDataWriter(
             tensors,
